@@ -90,6 +90,10 @@ def run(tier):
         nm = lambda v: v if v else "-"
         items.append(("cli", "r%d" % i, "(%s %s %s %s %s %d %s)" % (sub, nm(o["flag"]), nm(o["env"] if sub == "build" else None), nm(o["env"] if sub == "run" else None),
                                                                      nm(o["config"]), 1 if ok else 0, o["bres"])))
+    # where the IR files go: Model/OutPath.v on every module path used below
+    allmods = sorted({f for fs, _ in inputs.values() for f in fs} | {"a.pen"})
+    pm = C.run_model([("llpath", "p%d" % k, "(out %s)" % f) for k, f in enumerate(allmods)], ck.work + "/pathmodel", jobs=1)
+    llpath = {f: dict(x.split("=", 1) for x in pm.get("p%d" % k, "path=? pn=?").split(" ")) for k, f in enumerate(allmods)}
     model = C.run_model(items, ck.work + "/climodel", jobs=1)
     bad = 0; stats = collections.Counter(); distinct = set()
     for (i, sub, inp, o, p, log, d, files, ok) in runs:
@@ -136,7 +140,7 @@ def run(tier):
             if o["arrows"] == "ascii" and o["color"] == "never" and not o["verbose"] and not out.isascii():
                 bad += 1; ck.violation("arrows-ascii-ignored", "--arrows=ascii but non-ASCII output (%s)" % desc, replay); continue
         if o["outdir"]:
-            expect = [f + ".ll" for f in files] if ok else None
+            expect = [os.path.relpath(llpath[f]["path"], "out") for f in files] if ok else None      # (Model/OutPath.v: ll_path)
             found = sorted(os.path.relpath(os.path.join(dp, f), os.path.join(d, "out")) for dp, _, fs in os.walk(os.path.join(d, "out")) for f in fs if f.endswith(".ll"))
             if ok and found != sorted(expect):
                 bad += 1; ck.violation("ll-files", "--out-dir: found %s, expected %s (%s)" % (found, expect, desc), replay); continue
@@ -176,6 +180,18 @@ def run(tier):
             bad += 1; ck.violation("wrong-backend:unusable-environment-variable", "penne %s with %s set to a non-Unicode value%s: exit %d, invoked %s (expected %s)" % (
                 sub, var, " and --backend" if flag else "", p.returncode, log, want or "no backend and a non-zero status"),
                 "cwd %s\nargv %s\n%s=\\xff\\xfe\nexit %d\nstderr: %s" % (e, args, var, p.returncode, p.stderr.decode(errors="replace")[-600:]))
+    # two modules whose paths differ only in the extension (D57): one .ll file per module
+    e = os.path.join(root, "stem"); shutil.rmtree(e, ignore_errors=True); os.makedirs(e)
+    open(os.path.join(e, "a.pn"), "w").write('import "a.pen";\nfn main() -> i32\n{\n\treturn: two()\n}\n')
+    open(os.path.join(e, "a.pen"), "w").write('pub fn two() -> i32\n{\n\treturn: 2\n}\n')
+    p = subprocess.run([PENNE, "emit", "--color=never", "--out-dir", "out", "a.pn", "a.pen"], cwd=e, capture_output=True, timeout=120)
+    lls = sorted(os.path.join(dp, f) for dp, _, fs in os.walk(os.path.join(e, "out")) for f in fs if f.endswith(".ll"))
+    defined = [fn for path in lls for fn in __import__("re").findall(r"^define [^\n]*@(\w+)\(", open(path).read(), __import__("re").M)]
+    if sorted(os.path.relpath(x, e) for x in lls) != sorted({llpath["a.pn"]["path"], llpath["a.pen"]["path"]}):
+        ck.violation("tie-broken:out-path", "files written %s, Model/OutPath.v says %s" % (lls, [llpath["a.pn"]["path"], llpath["a.pen"]["path"]]), "cwd %s" % e)
+    if p.returncode == 0 and (len(lls) != 2 or sorted(defined) != ["main", "two"]):
+        ck.violation("ll-files:same-stem", "penne emit --out-dir out a.pn a.pen exits 0 but leaves %d .ll file(s) defining %s (one module's IR was overwritten by the other's)" % (len(lls), defined),
+                     "cwd %s\npenne emit --out-dir out a.pn a.pen\nexit 0\nfiles: %s\nstdout: %s" % (e, lls, p.stdout.decode(errors="replace")[-400:]))
     # absolute input path with --out-dir (D17)
     ab = os.path.join(d, "a.pn")
     p = subprocess.run([PENNE, "emit", "--out-dir", "outabs", ab], cwd=d, capture_output=True, timeout=120)
